@@ -200,8 +200,20 @@ vf_rb_avail(const r_buf_t *r, const r_buf_rpos_t *rp) {
 #ifndef VF_REPLAY
 void *malloc(__CPROVER_size_t);
 #define VF_RB_ALLOC(n)	malloc(n)
+#define VF_RB_ALLOC_STORAGE(n)	malloc(n)
 #else
+#include <sys/mman.h>
 #define VF_RB_ALLOC(n)	malloc((n) ? (n) : 1)
+/* the ring functions never touch the stored bytes: natively the storage is only an address
+ * range (up to 2^40 bytes), reserved without memory; 78 = replay inconclusive */
+static inline void *
+vf_rb_reserve(size_t n) {
+	void *p = mmap(NULL, n, PROT_NONE, MAP_PRIVATE | MAP_ANONYMOUS | MAP_NORESERVE, -1, 0);
+	if (p == MAP_FAILED)
+		exit(78);
+	return (p);
+}
+#define VF_RB_ALLOC_STORAGE(n)	vf_rb_reserve(n)
 #endif
 
 struct vf_rb_shape {
@@ -221,7 +233,7 @@ vf_rb_build(const struct vf_rb_shape *s) {
 	VF_ASSUME(s->size != 0 && s->size <= VF_RB_MAXSIZE);
 	r = (r_buf_p)VF_RB_ALLOC(sizeof(r_buf_t));
 	VF_ASSUME(r != NULL);
-	r->buf = (uint8_t *)VF_RB_ALLOC(s->size);
+	r->buf = (uint8_t *)VF_RB_ALLOC_STORAGE(s->size);
 	VF_ASSUME(r->buf != NULL);
 	r->iov = (iovec_p)VF_RB_ALLOC(VF_RB_IOVN * sizeof(iovec_t));
 	VF_ASSUME(r->iov != NULL);
